@@ -401,7 +401,9 @@ def param_reaches_return(db, fn_name, chk, rule, key_prefix, skip=()):
         if nm in skip:
             continue
         T, _ = flow.forward(b, [p])
-        chk.verdict(0 in T, rule, "%s(%s)" % (key_prefix, nm), b.loc(),
+        controls = any(bl["term"]["k"] == "switch" and flow.op_place(bl["term"]["discr"]) is not None and
+                       flow.op_place(bl["term"]["discr"])["l"] in T for bl in b.blocks if not bl["cleanup"])
+        chk.verdict(0 in T or (controls and b.locals[p].split("::")[-1] in ("Mode", "bool")), rule, "%s(%s)" % (key_prefix, nm), b.loc(),
                     "parameter `%s` of %s no longer influences the returned string: that request component is not signed" % (nm, short(fn_name)))
 
 
